@@ -24,6 +24,8 @@ type target struct {
 	names  []string
 	fixed  []bool // field length is fixed by the API (nonce, keys)
 	ptLen  int
+	// tagAt locates the 16-byte authenticator inside field 0.
+	tagAt func(n int) (lo, hi int)
 	// open returns whether the input was accepted, the returned plaintext and
 	// any problem with the failure behaviour (non-nil plaintext, dst contents).
 	open func(f [][]byte) (ok bool, pt []byte, problem error)
@@ -62,6 +64,7 @@ func chachaTarget(p path, key, nonce, pt, ad []byte, dstPrefix []byte, spareEnou
 		names:  []string{"sealed", "nonce", "ad", "key"},
 		fixed:  []bool{false, true, false, true},
 		ptLen:  len(pt),
+		tagAt:  func(n int) (int, int) { return n - 16, n },
 	}
 	tg.open = func(f [][]byte) (bool, []byte, error) {
 		restore := p.use()
@@ -133,6 +136,10 @@ func (s *seedReader) Read(p []byte) (int, error) {
 func arr32(b []byte) *[32]byte { var a [32]byte; copy(a[:], b); return &a }
 func arr24(b []byte) *[24]byte { var a [24]byte; copy(a[:], b); return &a }
 
+func naclTagAt(at int) func(int) (int, int) {
+	return func(int) (int, int) { return at, at + 16 }
+}
+
 func naclOpenResult(out []byte, ok bool, prefix []byte) (bool, []byte, error) {
 	if ok {
 		if len(out) < len(prefix) {
@@ -154,7 +161,7 @@ func naclTarget(kind string, seed, nonce, msg, prefix []byte) (target, error) {
 		key := make([]byte, 32)
 		rd.Read(key)
 		sealed := secretbox.Seal(nil, msg, arr24(nonce), arr32(key))
-		return target{scheme: kind, fields: [][]byte{sealed, nonce, key}, names: []string{"box", "nonce", "key"}, fixed: []bool{false, true, true}, ptLen: len(msg),
+		return target{scheme: kind, fields: [][]byte{sealed, nonce, key}, names: []string{"box", "nonce", "key"}, fixed: []bool{false, true, true}, ptLen: len(msg), tagAt: naclTagAt(0),
 			open: func(f [][]byte) (bool, []byte, error) {
 				var out []byte
 				var ok bool
@@ -177,7 +184,7 @@ func naclTarget(kind string, seed, nonce, msg, prefix []byte) (target, error) {
 		if kind == "box-precomputed" {
 			var shared [32]byte
 			box.Precompute(&shared, apub, bpriv)
-			return target{scheme: kind, fields: [][]byte{sealed, nonce, shared[:]}, names: []string{"box", "nonce", "sharedKey"}, fixed: []bool{false, true, true}, ptLen: len(msg),
+			return target{scheme: kind, fields: [][]byte{sealed, nonce, shared[:]}, names: []string{"box", "nonce", "sharedKey"}, fixed: []bool{false, true, true}, ptLen: len(msg), tagAt: naclTagAt(0),
 				open: func(f [][]byte) (bool, []byte, error) {
 					var out []byte
 					var ok bool
@@ -188,7 +195,7 @@ func naclTarget(kind string, seed, nonce, msg, prefix []byte) (target, error) {
 				},
 				same: func(int, []byte, []byte) bool { return false }}, nil
 		}
-		return target{scheme: kind, fields: [][]byte{sealed, nonce, apub[:], bpriv[:]}, names: []string{"box", "nonce", "peersPublicKey", "privateKey"}, fixed: []bool{false, true, true, true}, ptLen: len(msg),
+		return target{scheme: kind, fields: [][]byte{sealed, nonce, apub[:], bpriv[:]}, names: []string{"box", "nonce", "peersPublicKey", "privateKey"}, fixed: []bool{false, true, true, true}, ptLen: len(msg), tagAt: naclTagAt(0),
 			open: func(f [][]byte) (bool, []byte, error) {
 				var out []byte
 				var ok bool
@@ -215,7 +222,7 @@ func naclTarget(kind string, seed, nonce, msg, prefix []byte) (target, error) {
 		if err != nil {
 			return target{}, err
 		}
-		return target{scheme: kind, fields: [][]byte{sealed, pub[:], priv[:]}, names: []string{"box", "publicKey", "privateKey"}, fixed: []bool{false, true, true}, ptLen: len(msg),
+		return target{scheme: kind, fields: [][]byte{sealed, pub[:], priv[:]}, names: []string{"box", "publicKey", "privateKey"}, fixed: []bool{false, true, true}, ptLen: len(msg), tagAt: naclTagAt(32),
 			open: func(f [][]byte) (bool, []byte, error) {
 				var out []byte
 				var ok bool
@@ -308,6 +315,32 @@ func c02Enumerate(c *ev.Collector, tg *target) (int, error) {
 				res, err := c02Try(tg, fi, mod)
 				if err != nil {
 					return n, fmt.Errorf("bit %d of byte %d of %s flipped: %v", bit, pos, tg.names[fi], err)
+				}
+				if res == "" {
+					n++
+				} else {
+					c.Class("enum:" + res)
+				}
+			}
+		}
+		// structured multi-byte modifications: of the whole field and, for the
+		// sealed message, of the authenticator and of the body separately
+		regions := [][2]int{{0, len(f)}}
+		if fi == 0 && len(f) >= 16 {
+			lo, hi := tg.tagAt(len(f))
+			regions = append(regions, [2]int{lo, hi})
+			if lo > 0 {
+				regions = append(regions, [2]int{0, lo})
+			}
+			if hi < len(f) {
+				regions = append(regions, [2]int{hi, len(f)})
+			}
+		}
+		for _, rg := range regions {
+			for _, v := range structuredVariants(f, rg[0], rg[1]) {
+				res, err := c02Try(tg, fi, v.b)
+				if err != nil {
+					return n, fmt.Errorf("%s[%d:%d] modified by %s (%x -> %x): %v", tg.names[fi], rg[0], rg[1], v.name, f[rg[0]:rg[1]], v.b[rg[0]:rg[1]], err)
 				}
 				if res == "" {
 					n++
@@ -412,6 +445,20 @@ func TestC02(t *testing.T) {
 			case len(orig) == 0:
 				mod = gen.RandBytes(rt, "ext", rapid.IntRange(1, 32).Draw(rt, "extn"))
 				kind, pc = "extend", "pos=end"
+			case rapid.IntRange(0, 2).Draw(rt, "structured") == 0:
+				lo, hi := 0, len(orig)
+				pc = "region=whole-field"
+				if fi == 0 && len(orig) >= 16 && rapid.Bool().Draw(rt, "tagRegion") {
+					lo, hi = tg0.tagAt(len(orig))
+					pc = "region=tag"
+				}
+				vs := structuredVariants(orig, lo, hi)
+				if len(vs) == 0 {
+					mod, kind = append(clone(orig), 0), "extend"
+					break
+				}
+				v := vs[rapid.IntRange(0, len(vs)-1).Draw(rt, "variant")]
+				mod, kind = v.b, "structured:"+v.name
 			case tg0.fixed[fi] || rapid.IntRange(0, 1).Draw(rt, "bitOrOther") == 0:
 				pos := genPos(rt, "pos", len(orig))
 				mod = clone(orig)
